@@ -2598,6 +2598,10 @@ void Analyser::AnalyserImpl::addInvalidVariableIssue(const AnalyserInternalVaria
         descriptionEnd = "is used in an ODE, but it is not initialised";
 
         break;
+    case AnalyserInternalVariable::Type::STATE:
+        descriptionEnd = "is used in an ODE, but its rate cannot be determined from any one equation";
+
+        break;
     default: // AnalyserInternalVariable::Type::OVERCONSTRAINED.
         descriptionEnd = "is computed more than once";
 
@@ -2901,6 +2905,8 @@ void Analyser::AnalyserImpl::analyseModel(const ModelPtr &model)
 
     // Make sure that our variables are valid.
 
+    auto hasStatesWithoutRate = false;
+
     for (const auto &internalVariable : mInternalVariables) {
         switch (internalVariable->mType) {
         case AnalyserInternalVariable::Type::UNKNOWN:
@@ -2921,13 +2927,25 @@ void Analyser::AnalyserImpl::analyseModel(const ModelPtr &model)
             addInvalidVariableIssue(internalVariable, Issue::ReferenceRule::ANALYSER_VARIABLE_COMPUTED_MORE_THAN_ONCE);
 
             break;
+        case AnalyserInternalVariable::Type::STATE:
+            // A state must have had its rate computed by some equation (e.g.,
+            // not the case with dx/dt+dy/dt = 1 and dx/dt-dy/dt = 0).
+
+            if ((internalVariable->mIndex == MAX_SIZE_T) && !internalVariable->mIsExternal) {
+                addInvalidVariableIssue(internalVariable, Issue::ReferenceRule::ANALYSER_VARIABLE_UNUSED);
+
+                hasStatesWithoutRate = true;
+            }
+
+            break;
         default: // Other types we don't care about.
             break;
         }
     }
 
     if (mAnalyser->errorCount() != 0) {
-        auto hasUnderconstrainedVariables = std::any_of(mInternalVariables.begin(), mInternalVariables.end(), [](const auto &iv) {
+        auto hasUnderconstrainedVariables = hasStatesWithoutRate
+                                            || std::any_of(mInternalVariables.begin(), mInternalVariables.end(), [](const auto &iv) {
             switch (iv->mType) {
             case AnalyserInternalVariable::Type::UNKNOWN:
             case AnalyserInternalVariable::Type::SHOULD_BE_STATE:
